@@ -127,7 +127,7 @@ def percall_profile(E, k, tag=''):
     return p
 
 
-def valid_percall(E, p):
+def valid_percall(E, p, ordered_range=True):
     """Documented meaning of the leaves (so that the chain can run)."""
     if 'MSA' in p:
         E.assume(p['MSA'] >= 0)
@@ -137,7 +137,10 @@ def valid_percall(E, p):
     if 'dt_scale' in g:
         E.assume(g['dt_scale'] > 0)
     if 'height_scale_range' in g:
-        E.assume(And(g['height_scale_range'][0] > 0, g['height_scale_range'][1] >= g['height_scale_range'][0]))
+        if ordered_range:
+            E.assume(And(g['height_scale_range'][0] > 0, g['height_scale_range'][1] >= g['height_scale_range'][0]))
+        else:       # the code takes min() and max() of the pair: either order is a valid way of writing the range
+            E.assume(And(g['height_scale_range'][0] > 0, g['height_scale_range'][1] > 0))
     l = p.get('LAYERING_PRMS', {}).get('gmm_kwargs', {})
     if 'delta_mul_gain' in l:
         E.assume(And(l['delta_mul_gain'] > 0, l['delta_mul_gain'] <= 1))
